@@ -86,7 +86,11 @@ func (sr *streamReader) Read(d []byte) (copied int, err error) {
 		} else if n < sr.sectorSize && sr.remaining > 0 {
 			return copied, fmt.Errorf("short read of sector %d: expected %d bytes but got %d", sr.nextSector, sr.sectorSize, n)
 		}
-		sr.nextSector = sr.sat[sr.nextSector]
+		next, cerr := nextInChain(sr.sat, sr.nextSector)
+		if cerr != nil {
+			return copied, cerr
+		}
+		sr.nextSector = next
 	}
 	// read partial sector and buffer the rest
 	if len(d) > 0 {
@@ -109,7 +113,11 @@ func (sr *streamReader) Read(d []byte) (copied int, err error) {
 		}
 		// save the remainder, if anything
 		sr.saved = sr.buf[len(d):]
-		sr.nextSector = sr.sat[sr.nextSector]
+		next, cerr := nextInChain(sr.sat, sr.nextSector)
+		if cerr != nil {
+			return copied, cerr
+		}
+		sr.nextSector = next
 	}
 	return copied, nil
 }
